@@ -13,6 +13,8 @@ PLAN = {
     "seq_eval": ["asan"],
     "c18_json": ["asan", "plain"],
     "c19_files": ["asan"],
+    "c02_diff": ["asan"],
+    "c08_reeval": ["asan"],
 }
 
 
